@@ -404,6 +404,9 @@ def loop_correspondence(ctx: Ctx, info: dict, runner: Runner) -> None:
             chain = [k] + extra
             src = "".join(gen.defer_chain(kk, f"C{j}") for j, kk in enumerate(chain))
             jobs.append((chain, src))
+    for k in range(1, 4):
+        # a cycle never resolves: the model's oracle "wants to defer in every pass" (depth 99)
+        jobs.append(([99], gen.defer_cycle(k, "Y")))
     lines = ["P " + " ".join(str(k) for k in ch) for ch, _ in jobs]
     model = ctx.lean_driver("Driver/C20.lean", lines)
     with ThreadPoolExecutor(max_workers=NPROC) as ex:
@@ -1129,6 +1132,9 @@ def search_without_lean(ctx: Ctx, runner: Runner) -> None:
     for k in range(0, 40, 3):
         jobs.append({"id": f"dc{k}", "origin": f"defer-chain-{k}", "kinds": ["generated"],
                      "files": {"main.py": gen.defer_chain(k)}, "flags": []})
+    for k in range(1, 5):
+        jobs.append({"id": f"dy{k}", "origin": f"defer-cycle-{k}", "kinds": ["generated"],
+                     "files": {"main.py": gen.defer_cycle(k)}, "flags": []})
     jobs += make_batch_jobs(ctx, max(int(ctx.pick(300, 2000) * SCALE), 20))
     results = run_batch(ctx, runner, jobs)
     n = 0
